@@ -488,6 +488,50 @@ func GenTypes(t *rapid.T, o *Opts) *Spec {
 			o.class("feature:union_holder_reached_through_container")
 		}
 	}
+	if o.RecursiveUnions && rapid.IntRange(0, 2).Draw(t, "recursiveUnion") == 0 {
+		// a recursive union: a struct member holds a value of the union it belongs to (type Add struct{ Left, Right Expr })
+		type pair struct {
+			u *tinfo
+			m *tinfo
+		}
+		var ps []pair
+		for _, ti := range g.types {
+			if ti.cat != "union" || ti.pkg != root {
+				continue
+			}
+			ur := g.spec.Unions()[root.Path][ti.d.Name]
+			if ur == nil {
+				continue
+			}
+			for _, mn := range ur.Members {
+				for _, mi := range g.types {
+					// (a struct that is embedded elsewhere stays free of unions: the generated MarshalJSON would be
+					// promoted to the embedding struct, the restriction the embedding generator already observes)
+					if mi.pkg == root && mi.d != nil && mi.d.Name == mn && mi.d.Kind == KStruct && mi.cat == "struct" && !g.embeddedSomewhere(mi.d.Name) {
+						ps = append(ps, pair{ti, mi})
+					}
+				}
+			}
+		}
+		if len(ps) > 0 {
+			p := ps[rapid.IntRange(0, len(ps)-1).Draw(t, "recursiveUnionOf")]
+			has := false
+			for _, f := range p.m.d.Fields {
+				if f.Name == "Operand" || JSONKey(f) == "Operand" {
+					has = true
+				}
+			}
+			if !has {
+				p.m.d.Fields = append(p.m.d.Fields, &Field{Name: "Operand", Type: g.refTo(root, p.u)})
+				if g.embeddedInCycle(root) && o.gated("embedded_struct_in_cycle") {
+					p.m.d.Fields = p.m.d.Fields[:len(p.m.d.Fields)-1]
+				} else {
+					p.m.hasUnion = true
+					o.class("graph:recursive_union_through_struct_member")
+				}
+			}
+		}
+	}
 	if o.DataIgnoreUnions && rapid.Bool().Draw(t, "dataIgnoreHolder") {
 		// a struct whose union field is skipped for data generation, next to one that is not
 		var us []*tinfo
@@ -828,6 +872,22 @@ func (g *gen) regroup(f *File) {
 }
 
 // pruneUnusedPkgs removes sub-packages the root never references (they would not be part of the import graph).
+// embeddedSomewhere reports whether a struct of the program embeds the type of that name.
+func (g *gen) embeddedSomewhere(name string) bool {
+	for _, p := range g.spec.Pkgs {
+		for _, f := range p.Files {
+			for _, d := range f.Decls {
+				for _, fl := range d.Fields {
+					if fl.Embedded && fl.Type != nil && fl.Type.K == TRef && fl.Type.Name == name {
+						return true
+					}
+				}
+			}
+		}
+	}
+	return false
+}
+
 func (g *gen) pruneUnusedPkgs() {
 	used := map[string]bool{}
 	var walk func(tr *TypeRef)
